@@ -51,7 +51,9 @@ class ScaleTracker(torch.autograd.Function):
     ) -> Tensor:
         scale_tracker.forward = float(t.std())
         ctx.scale_tracker = scale_tracker  # type: ignore
-        return t
+        # (a copy, not `t` itself: autograd forbids in-place ops, e.g. `nn.ReLU(inplace=True)`,
+        # on an input that a custom Function returns as-is)
+        return t.clone()
 
     @staticmethod
     def backward(  # type:ignore[override]
